@@ -144,6 +144,11 @@ int main(int argc, char *argv[])
             msg_length = Avtp_Ntscf_GetNtscfDataLength((Avtp_Ntscf_t*)cf_pdu);
         }
 
+        // The GPC header must lie within the received datagram
+        if ((uint64_t)res < proc_bytes + AVTP_GPC_HEADER_LEN) {
+            continue;
+        }
+
         // Check if the control packet payload is a ACF GPC.
         acf_pdu = &pdu[proc_bytes];
         acf_type = Avtp_AcfCommon_GetAcfMsgType((Avtp_AcfCommon_t*)acf_pdu);
@@ -156,9 +161,12 @@ int main(int argc, char *argv[])
         // Parse the GPC Packet and print contents on the STDOUT
         gpc_code = Avtp_Gpc_GetGpcMsgId((Avtp_Gpc_t*)acf_pdu);
         acf_msg_length = Avtp_Gpc_GetAcfMsgLength((Avtp_Gpc_t*)acf_pdu);
-        if (acf_msg_length * 4 <= MAX_MSG_SIZE) {
+        if (acf_msg_length * 4 <= MAX_MSG_SIZE && acf_msg_length * 4 >= AVTP_GPC_HEADER_LEN &&
+            proc_bytes + acf_msg_length * 4 <= (uint64_t)res) {
+            // The text is not necessarily terminated within the message
             recd_msg = (char *) acf_pdu + AVTP_GPC_HEADER_LEN;
-            printf("%s : GPC Code %ld\n", recd_msg, gpc_code);
+            printf("%.*s : GPC Code %ld\n", (int)(acf_msg_length * 4 - AVTP_GPC_HEADER_LEN),
+                   recd_msg, gpc_code);
         }
     }
 
